@@ -14,6 +14,7 @@ const (
 )
 
 func RegisterTunnel(t *Tunnel, p *Processor) {
+	verifPoint("registry")
 	if Connections == nil {
 		Connections = make(map[string]*Monitor)
 	}
@@ -22,10 +23,13 @@ func RegisterTunnel(t *Tunnel, p *Processor) {
 		Processor: p,
 		Tunnel:    t,
 	}
+	verifEvent("registry", t, "op", "add", "size", len(Connections))
 }
 
 func RemoveTunnel(t *Tunnel) {
+	verifPoint("registry")
 	delete(Connections, t.Id)
+	verifEvent("registry", t, "op", "del", "size", len(Connections))
 }
 
 func Disconnect(id string) error {
